@@ -28,26 +28,36 @@ SwitchLike == {"Switch", "SwitchScenario", "SwitchRandom", "SwitchSector", "Swit
                "main_EnterTraining", "main_EnterTraining2"}
 Tok(t) == t     \* parameter tokens are compared with the first word via FirstWord (computed from the token by the harness)
 
-\* the leading word the statement printed for an op must begin with
-SurfaceOk(c, e) ==
-  LET o == OpAtOff(c, e.off)  w == e.word IN
-  IF Cases[c].plain THEN w = o.op           \* SsbScript (also the fallback output): every op is spelt OpCode(...)
-  ELSE
+\* the op a Jump leads to, through further Jump ops (a Jump that is not printed as a statement of its own - the text simply continues
+\* with its target - keeps its entry: it is then where the statement of that target begins)
+RECURSIVE ResolveJump(_, _, _)
+ResolveJump(c, off, n) ==
+  IF PosOf(R(c), off) = {} \/ n = 0 THEN off
+  ELSE LET o == OpAtOff(c, off) IN IF o.op = "Jump" /\ o.tgt # -1 THEN ResolveJump(c, o.tgt, n - 1) ELSE off
+\* the leading word the statement printed for op o must begin with (fpw = first word of o's first parameter, "?" = not known)
+RECURSIVE WordOk(_, _, _, _)
+WordOk(c, o, w, fpw) ==
   CASE o.op = "Return" -> w = "return" [] o.op = "End" -> w = "end" [] o.op = "Hold" -> w = "hold"
-    [] o.op = "Jump" -> w \in {"jump", "break", "continue", "break_loop", "@label"}   \* a jump to the directly following label prints only the label
+    [] o.op = "Jump" -> \/ w \in {"jump", "break", "continue", "break_loop", "@label"}   \* printed, or a jump to the directly following label
+                        \/ LET t == ResolveJump(c, o.off, NumOps(R(c))) IN
+                           t # o.off /\ PosOf(R(c), t) # {} /\ OpAtOff(c, t).op # "Jump" /\ WordOk(c, OpAtOff(c, t), w, "?")
     [] o.op = "Call" -> w = "call"
     [] o.op \in BranchOps -> w \in {"if", "elseif"}
     [] o.op \in CaseOps -> w = "case"
     [] o.op \in SwitchLike -> w = "switch"
     [] o.op \in {"message_SwitchTalk", "message_SwitchMonologue"} -> w = o.op
     [] o.op = "CaseText" -> w = "case" [] o.op = "DefaultText" -> w = "default"
-    [] o.op \in CtxOps -> w = "with" \/ w = NextOpName(c, e.off)
+    [] o.op \in CtxOps -> w = "with" \/ w = NextOpName(c, o.off)
     [] o.op \in {"flag_Clear"} -> w = "clear" [] o.op = "flag_Initial" -> w = "init"
     [] o.op \in {"flag_ResetDungeonResult", "flag_ResetScenario"} -> w = "reset"
     [] o.op = "flag_SetAdventureLog" -> w = "adventure_log" [] o.op = "flag_SetDungeonMode" -> w = "dungeon_mode"
     [] o.op = "flag_SetPerformance" -> w = "$PERFORMANCE_PROGRESS_LIST"
-    [] o.op \in {"flag_Set", "flag_CalcValue", "flag_CalcVariable", "flag_CalcBit", "flag_SetScenario"} -> w = e.firstParamWord
+    [] o.op \in {"flag_Set", "flag_CalcValue", "flag_CalcVariable", "flag_CalcBit", "flag_SetScenario"} -> fpw = "?" \/ w = fpw
     [] OTHER -> w = o.op
+SurfaceOk(c, e) ==
+  LET o == OpAtOff(c, e.off) IN
+  IF Cases[c].plain THEN e.word = o.op           \* SsbScript (also the fallback output): every op is spelt OpCode(...)
+  ELSE WordOk(c, o, e.word, e.firstParamWord)
 
 \* ops that are printed as a statement of their own whenever they are reachable
 OwnStatement(o) == o.op \notin (BranchOps \cup {"Jump"})
